@@ -23,7 +23,9 @@ Inductive op :=
 | OSliceCopy (items : list item)          (* slice_copy: result is a fresh tensor *)
 | OReshape (shape : list N)               (* TensorView::reshaped: view or copy *)
 | OToContiguous                           (* to_contiguous: view or copy *)
-| OClipDim (dim a b : N).                 (* owned tensor with this layout, clip_dim *)
+| OClipDim (dim a b : N)                  (* owned tensor with this layout, clip_dim *)
+| OAppend (axis k cap : N).               (* with_capacity(shape[axis := cap], axis), then append
+                                             view[.., 0..k, ..] and view[.., k.., ..] along axis *)
 
 (* state of the model: the storage the current view points into, and the view *)
 Record mstate := mkM { m_store : list N; m_view : view }.
@@ -36,6 +38,19 @@ Definition fresh (t : tensor N) : mstate :=
 
 Definition sublist {A} (start len : N) (l : list A) : list A :=
   firstn (N.to_nat len) (skipn (N.to_nat start) l).
+
+(* storage of a freshly filled owned tensor: element i of [elems] at offset i of [offs],
+   zero elsewhere (the gaps are never read through the layout) *)
+Definition scatter (len : N) (offs elems : list N) : list N :=
+  map (fun o => match find (fun p : N * N => fst p =? o) (combine offs elems) with
+                | Some p => snd p
+                | None => 0
+                end) (range len).
+
+(* TensorBase::has_capacity / expanded_layout *)
+Definition has_capacity (w : bool) (capacity : N) (dims : list dim) : bool :=
+  (min_data_len dims <=? capacity)
+  && negb (may_have_internal_overlap w (shape_of dims) (strides_of dims)).
 
 Definition lift (st : mstate) (r : res view) : res mstate :=
   match r with Ok v => Ok (mkM (m_store st) v) | Err e => Err e end.
@@ -95,6 +110,26 @@ Definition apply_op (w : bool) (o : op) (st : mstate) : res mstate :=
           let start := if is_empty dims' then 0 else a * d_stride d in
           let len := if is_empty dims' then 0 else min_data_len dims' in
           Ok (mkM (sublist (v_off v + start) len (m_store st)) (mkV 0 dims'))
+  | OAppend axis k cap =>
+      (* Tensor::with_capacity(shape[axis := cap], axis) = uninit + clip_dim(axis, 0..0);
+         append #1 grows the axis to k, append #2 to its full size *)
+      let dims := v_dims v in
+      if ndim dims <=? axis then Err EPanic
+      else
+        let n := d_size (nthN dims axis (0, 0)) in
+        if n <? k then Err EPanic                        (* the harness' slice_axis(0..k) panics *)
+        else
+          let cap_shape := replace_at (N.to_nat axis) cap (shape_of dims) in
+          let capacity := prodN cap_shape in
+          let cdims := contiguous_dims cap_shape in
+          let l1 := set_size (N.to_nat axis) k cdims in
+          let l2 := set_size (N.to_nat axis) n cdims in
+          if negb (has_capacity w capacity l1) then Err InsufficientCapacity
+          else if negb (has_capacity w capacity l2) then Err InsufficientCapacity
+          else match denote_fast (m_store st) v with
+               | Some t => Ok (mkM (scatter (min_data_len l2) (off_list l2) (t_elems t)) (mkV 0 l2))
+               | None => Err EPanic
+               end
   end.
 
 (* ---------------------------------------------------------------- the reference side *)
@@ -125,6 +160,12 @@ Definition ref_apply (o : op) (t : tensor N) (got : list N) : option (tensor N) 
   | OReshape shape => ref_reshape t shape
   | OToContiguous => Some t
   | OClipDim dm a b => ref_slice_axis t dm a b
+  | OAppend axis k cap =>
+      (* numpy.concatenate([t[.., :k, ..], t[.., k:, ..]], axis) *)
+      match ref_slice_axis t axis 0 k, ref_slice_axis t axis k (nthN (t_shape t) axis 0) with
+      | Some l, Some r => ref_concat l r axis
+      | _, _ => None
+      end
   end.
 
 (* errors that a documented precondition of the *view-producing* API allows even though
@@ -133,6 +174,7 @@ Definition contract_error (o : op) (e : err) : bool :=
   match o, e with
   | OReshapeView _, NotContiguous => true     (* a view cannot reorder storage *)
   | OClipDim _ _ _, MayOverlap => true     (* harness could not build an owned tensor *)
+  | OAppend _ _ _, InsufficientCapacity => true   (* documented: no re-allocation *)
   | _, _ => false
   end.
 
